@@ -349,6 +349,12 @@ impl Env {
         let (fa, fc) = (fault_at.clone(), fault_ctr.clone());
         log4rs::verif_hooks::set_rotate_point(Some(Arc::new(move |_step: u32| {
             let k = fc.fetch_add(1, Ordering::SeqCst) as i64;
+            if k == DISK_FULL_AT.load(Ordering::SeqCst) {
+                // from this step on every write to a regular file fails with EFBIG (a full disk):
+                // the step itself is not refused, the filesystem refuses the codec's writes
+                disk_full(true);
+                return Ok(());
+            }
             if k == fa.load(Ordering::SeqCst) {
                 Err(std::io::Error::new(std::io::ErrorKind::Other, "injected"))
             } else {
@@ -440,9 +446,48 @@ impl Drop for Env {
     }
 }
 
+/// rotation step from which the disk is "full" for the current append (-1: never), see `disk_full`
+static DISK_FULL_AT: AtomicI64 = AtomicI64::new(-1);
+static OLD_FSIZE: AtomicU64 = AtomicU64::new(u64::MAX);
+static FULL_ON: AtomicBool = AtomicBool::new(false);
+
+/// A real write failure instead of an injected `Err`: RLIMIT_FSIZE = 0 makes every write that would
+/// extend a regular file fail with EFBIG (SIGXFSZ ignored), which is how a full disk looks to the
+/// codecs of a compressing rotation, final flush included.
+fn disk_full(on: bool) {
+    unsafe {
+        let mut lim = libc::rlimit { rlim_cur: 0, rlim_max: 0 };
+        libc::getrlimit(libc::RLIMIT_FSIZE, &mut lim);
+        if on {
+            libc::signal(libc::SIGXFSZ, libc::SIG_IGN);
+            FULL_ON.store(true, Ordering::SeqCst);
+            OLD_FSIZE.store(lim.rlim_cur as u64, Ordering::SeqCst);
+            lim.rlim_cur = 0;
+        } else {
+            lim.rlim_cur = OLD_FSIZE.load(Ordering::SeqCst) as libc::rlim_t;
+        }
+        libc::setrlimit(libc::RLIMIT_FSIZE, &lim);
+    }
+}
+
+/// one append during which the disk is full from rotation step `k` on
+pub fn append_disk_full(env: &Env, app: &RollingFileAppender, r: &RecSpec, k: u64) -> anyhow::Result<()> {
+    env.arm_fault(None);
+    DISK_FULL_AT.store(k as i64, Ordering::SeqCst);
+    let res = r.append_to(app);
+    DISK_FULL_AT.store(-1, Ordering::SeqCst);
+    if FULL_ON.swap(false, Ordering::SeqCst) {
+        disk_full(false);
+    }
+    res
+}
+
 pub enum OpSpec {
     /// record, injected rotation-step fault, late roller error, encoder failure after n slices
     Append(RecSpec, Option<u64>),
+    /// record; from rotation step k on the disk is full (`F<k>!`): the model's fault at step k when k
+    /// is the compressing final step of a window of at least two slots
+    AppendDiskFull(RecSpec, u64),
     AppendLate(RecSpec),
     AppendEncFail(RecSpec, u64),
     Restart,
@@ -459,6 +504,10 @@ pub fn parse_op(s: &str) -> Option<OpSpec> {
     if let Some(rest) = s.strip_prefix('f') {
         let (k, r) = rest.split_once('!')?;
         return Some(OpSpec::Append(RecSpec::parse(r)?, Some(k.parse().ok()?)));
+    }
+    if let Some(rest) = s.strip_prefix('F') {
+        let (k, r) = rest.split_once('!')?;
+        return Some(OpSpec::AppendDiskFull(RecSpec::parse(r)?, k.parse().ok()?));
     }
     if let Some(r) = s.strip_prefix("g!") {
         return Some(OpSpec::AppendLate(RecSpec::parse(r)?));
@@ -511,6 +560,14 @@ pub fn exec_seq(f: &[&str]) -> String {
                     env.arm_fault(*fault);
                     let res = r.append_to(app.as_ref().unwrap());
                     env.arm_fault(None);
+                    if res.is_ok() {
+                        "ok"
+                    } else {
+                        "err"
+                    }
+                }
+                OpSpec::AppendDiskFull(r, k) => {
+                    let res = append_disk_full(&env, app.as_ref().unwrap(), r, *k);
                     if res.is_ok() {
                         "ok"
                     } else {
@@ -836,6 +893,17 @@ pub fn gen_seq_case(rng: &mut Rng, thorough: bool, choice: TrigChoice) -> String
         (_, TrigChoice::Any) => 1,
         _ => 3,
     };
+    // a full disk from the compressing final step on (real EFBIG on the codec's writes): post-process
+    // triggers only (the record is on disk before the rotation starts), windows of at least two slots
+    // (slot `base` is vacant when the codec creates it)
+    let (disk_full_ok, full_step) = match (&roll, &trig) {
+        (RollSpec::Fw { count, pat, .. }, TrigSpec::Size(_)) | (RollSpec::Fw { count, pat, .. }, TrigSpec::Scripted { pre: false, .. })
+            if *count >= 2 && (*pat == 2 || *pat == 3) && choice != TrigChoice::Startup =>
+        {
+            (true, *count as u64 - 1)
+        }
+        _ => (false, 0),
+    };
     let case = Case { append, pre_active, pre_arch, trig, roll, clock0: 1_700_000_000 + rng.below(200) as i64 };
     let mut budget: u64 = if thorough { 14000 } else { 7000 };
     let mut ops = vec![];
@@ -849,7 +917,9 @@ pub fn gen_seq_case(rng: &mut Rng, thorough: bool, choice: TrigChoice) -> String
             ops.push(format!("c{}", rng.below(100)));
         } else {
             let r = gen_record(rng, i as u64 + 1, pivot, &mut budget).render();
-            if faults_ok && rng.chance(1, 10) {
+            if disk_full_ok && rng.chance(1, 8) {
+                ops.push(format!("F{}!{}", full_step, r));
+            } else if faults_ok && rng.chance(1, 10) {
                 ops.push(format!("f{}!{}", rng.range(0, max_step), r));
             } else if rng.chance(1, 12) {
                 // the roller does its work and then reports Err (first op of C17 histories more often)
@@ -869,7 +939,7 @@ pub fn gen_seq_case(rng: &mut Rng, thorough: bool, choice: TrigChoice) -> String
         }
     }
     // background rotation (second harness build): fault-free histories, observed at quiescence
-    if choice == TrigChoice::Any && rng.chance(1, 8) && !ops.iter().any(|o| o.starts_with('f') || o.starts_with('g')) {
+    if choice == TrigChoice::Any && rng.chance(1, 8) && !ops.iter().any(|o| o.starts_with('f') || o.starts_with('F') || o.starts_with('g')) {
         return format!("seq\t{}\t{}\t@bg", case.render(), enc_list(",", &ops));
     }
     format!("seq\t{}\t{}", case.render(), enc_list(",", &ops))
